@@ -171,6 +171,7 @@ func stubLdbOpenFile(path string, o *opt.Options) (*leveldb.DB, error) {
 	}
 	f := vDisk[path]
 	if f == nil {
+		vEffect() // creating the database directory is a durable effect of its own
 		f = &vFakeDB{path: path}
 		vDisk[path] = f
 	}
